@@ -270,6 +270,11 @@ func (m *Mast) flush(ctx context.Context) (string, error) {
 	if err != nil {
 		return "", fmt.Errorf("load root: %w", err)
 	}
+	if node.isEmpty() {
+		// never-populated tree: same (absent) root as a tree emptied by deletes
+		m.root = nil
+		return "", nil
+	}
 	storeQ := make(chan func() error)
 	n := 40
 	gate := make(chan interface{}, n)
